@@ -97,7 +97,7 @@ func (vc *FnVC) instr(ins ssa.Instruction) {
 		if a.kind == aObj {
 			vc.nilCheck(a, vc.exprText(x.X))
 			key, _, ft := vc.fieldKey(a.stT, x.Field)
-			vc.addrs[x] = &Addr{kind: aField, key: key, ref: a.ref, rootT: ft, T: ft}
+			vc.addrs[x] = &Addr{kind: aField, key: key, ref: a.ref, rootT: ft, T: ft, fieldInv: vc.fieldInvOf(a.stT, x.Field)}
 			return
 		}
 		na := *a
@@ -187,7 +187,7 @@ func (vc *FnVC) instr(ins ssa.Instruction) {
 		dom, val, ln, ks, vs := vc.mapKeys(mt)
 		r := vc.newRef("map")
 		vc.set(dom, sStore(vc.cur(dom), r, "((as const (Array "+ks+" Bool)) false)"))
-		vc.set(val, sStore(vc.cur(val), r, "((as const (Array "+ks+" "+vs+")) "+vc.sorts.zero(mt.Elem())+")"))
+		vc.set(val, sStore(vc.cur(val), r, vc.zeroArray(ks, vs, vc.sorts.zero(mt.Elem()))))
 		vc.set(ln, sStore(vc.cur(ln), r, "0"))
 		vc.regs[x] = Val{r, x.Type(), SInt}
 	case *ssa.Slice:
@@ -228,11 +228,14 @@ func (vc *FnVC) doAlloc(x *ssa.Alloc) {
 		for i := 0; i < u.NumFields(); i++ {
 			key, _, ft := vc.fieldKey(et, i)
 			vc.set(key, sStore(vc.cur(key), r, vc.sorts.zero(ft)))
+			if vc.fieldInvOf(et, i) != "" && !allocInitialises(x, i) {
+				vc.assert("field-invariant", key+" initialised at allocation", "false")
+			}
 		}
 		vc.addrs[x] = &Addr{kind: aObj, ref: r, stT: et, T: et}
 	case *types.Array:
 		key, es := vc.memKey(u.Elem())
-		vc.set(key, sStore(vc.cur(key), r, "((as const (Array Int "+es+")) "+vc.sorts.zero(u.Elem())+")"))
+		vc.set(key, sStore(vc.cur(key), r, vc.zeroArray("Int", es, vc.sorts.zero(u.Elem()))))
 		vc.addrs[x] = &Addr{kind: aMem, key: key, ref: r, idx: "", rootT: u.Elem(), T: et}
 	default:
 		key, _ := vc.boxKey(et)
@@ -263,6 +266,11 @@ func (vc *FnVC) doUnOp(x *ssa.UnOp) {
 		r := vc.setReg(x, t)
 		if a.kind != aLocal {
 			vc.assume(vc.typeFacts(r))
+			vc.assume(vc.regimeFacts(r.S, x.Type(), 0))
+			if a.kind == aField && a.fieldInv != "" && len(a.path) == 0 {
+				vc.assume(nonNilTerm(r.S, r.K))
+			}
+			vc.assumeTypeInv(r, false)
 		}
 	case token.NOT:
 		v := vc.val(x.X)
@@ -293,6 +301,13 @@ func (vc *FnVC) doBinOp(x *ssa.BinOp) {
 		switch x.Op {
 		case token.ADD, token.SUB, token.MUL:
 			op := map[token.Token]string{token.ADD: "+", token.SUB: "-", token.MUL: "*"}[x.Op]
+			if bk := x.Type().Underlying().(*types.Basic).Kind(); (bk == types.Int || bk == types.Int64) && x.Op != token.MUL {
+				// exact two's-complement semantics: a single wrap by 2^64 (|a±b| < 2^64)
+				raw := vc.define(x.Name()+"raw", SInt, sx(op, a.S, b.S))
+				vc.setReg(x, sIte(sx(">", raw, "9223372036854775807"), sx("-", raw, "18446744073709551616"),
+					sIte(sx("<", raw, "(- 9223372036854775808)"), sx("+", raw, "18446744073709551616"), raw)))
+				break
+			}
 			r := vc.setReg(x, sx(op, a.S, b.S))
 			vc.rangeAssert("overflow", text, r.S, x.Type())
 		case token.QUO:
@@ -518,11 +533,13 @@ func (vc *FnVC) doTypeAssert(x *ssa.TypeAssert) {
 		okv := vc.define(x.Name()+"ok", SBool, test)
 		res := vc.define(x.Name()+"v", k, sIte(okv, payload, vc.sorts.zero(x.AssertedType)))
 		vc.tuples[x] = []Val{{res, x.AssertedType, k}, {okv, types.Typ[types.Bool], SBool}}
+		vc.assumeTypeInv(Val{res, x.AssertedType, k}, false)
 		return
 	}
 	vc.assert("type-assert", vc.exprText(x), test)
 	r := vc.setReg(x, payload)
 	vc.assume(vc.typeFacts(r))
+	vc.assumeTypeInv(r, false)
 }
 
 func (vc *FnVC) doConvert(x *ssa.Convert) {
@@ -541,14 +558,18 @@ func (vc *FnVC) doConvert(x *ssa.Convert) {
 	case isFloat(from) && isFloat(to):
 		vc.regs[x] = Val{v.S, to, SF64}
 	case isFloat(from) && isIntLike(to):
-		// Go: result is implementation-defined when the truncated value does not fit. Obligation: it fits.
+		// Go leaves the result implementation-defined when the truncated value does not fit; it never panics.
+		// linux/amd64 (CVTTSD2SQ): NaN, +-Inf and out-of-range values give the minimum integer ("integer indefinite").
 		vc.sorts.declareFun("f64.toint", "(F64) Int")
 		lo, hi := intRange(to)
 		tr := sx("fp.to_real", sx("fp.roundToIntegral", "RTZ", v.S))
 		ok := sAnd(sNot(sx("fp.isNaN", v.S)), sNot(sx("fp.isInfinite", v.S)), sx("<=", sx("to_real", lo), tr), sx("<=", tr, sx("to_real", hi)))
-		vc.assert("float-to-int", types.TypeString(to, nil)+"("+vc.exprText(x.X)+")", ok)
+		if b := to.Underlying().(*types.Basic); b.Kind() != types.Int && b.Kind() != types.Int64 {
+			vc.fail("float to %s conversion", to)
+		}
+		vc.note("float64->int conversions follow linux/amd64: out-of-range, NaN and Inf give math.MinInt64")
 		r := vc.setReg(x, sx("f64.toint", v.S))
-		vc.assume(sEq(sx("to_real", r.S), tr))
+		vc.assume(sIte(ok, sEq(sx("to_real", r.S), tr), sEq(r.S, lo)))
 		vc.assume(vc.typeFacts(r))
 	case isString(to) && isIntLike(from):
 		vc.sorts.declareFun("gs.fromRune", "(Int) Str")
@@ -611,7 +632,7 @@ func (vc *FnVC) doMakeSlice(x *ssa.MakeSlice) {
 	vc.assert("makeslice", vc.exprText(x.Len), sAnd(sx("<=", "0", ln.S), sx("<=", ln.S, cp.S), sx("<=", cp.S, maxLen)))
 	key, es := vc.memKey(st.Elem())
 	base := vc.newRef("mk")
-	vc.set(key, sStore(vc.cur(key), base, "((as const (Array Int "+es+")) "+vc.sorts.zero(st.Elem())+")"))
+	vc.set(key, sStore(vc.cur(key), base, vc.zeroArray("Int", es, vc.sorts.zero(st.Elem()))))
 	vc.setReg(x, sx("mk-slice", base, "0", ln.S, cp.S))
 }
 
@@ -684,7 +705,7 @@ func (vc *FnVC) doLookup(x *ssa.Lookup) {
 		vs := vc.sorts.sortOf(t.Elem())
 		v := vc.define(x.Name()+"v", vs, sIte(in, sSelect(sSelect(vc.cur(val), m.S), k.S), vc.sorts.zero(t.Elem())))
 		rv := Val{v, t.Elem(), vs}
-		vc.assume(sImp(in, vc.typeFacts(rv)))
+		vc.assume(sImp(in, sAnd(vc.typeFacts(rv), vc.regimeFacts(rv.S, t.Elem(), 0))))
 		if x.CommaOk {
 			vc.tuples[x] = []Val{rv, {in, types.Typ[types.Bool], SBool}}
 		} else {
@@ -707,6 +728,9 @@ func (vc *FnVC) doMapUpdate(x *ssa.MapUpdate) {
 	v := vc.val(x.Value)
 	dom, val, ln, _, _ := vc.mapKeys(t)
 	vc.assert("nil-map", vc.exprText(x.Map), sNot(sEq(m.S, "0")))
+	if f := vc.regimeFacts(v.S, t.Elem(), 0); f != "true" {
+		vc.assert("elem-invariant", "stored Element is non-nil", f)
+	}
 	vc.frameCheck(dom, m.S)
 	d := sSelect(vc.cur(dom), m.S)
 	was := vc.define("was", SBool, sSelect(d, k.S))
@@ -759,8 +783,11 @@ func (vc *FnVC) doNext(x *ssa.Next) {
 		dom, val, _, ks, vs := vc.mapKeys(mt)
 		okc := vc.fresh("nextok", SBool)
 		k := vc.fresh("nextk", ks)
-		d := sSelect(vc.cur(dom), it.m.S)
-		vis := vc.cur(it.visitedKey)
+		d := vc.fresh("rdom", "(Array "+ks+" Bool)")
+		vc.assume(sEq(d, sSelect(vc.cur(dom), it.m.S)))
+		vis0 := vc.cur(it.visitedKey)
+		vis := vc.fresh("rvis", "(Array "+ks+" Bool)")
+		vc.assume(sEq(vis, vis0))
 		// ok => k in dom, not visited;  !ok => every key in dom visited
 		vc.assume(sImp(okc, sAnd(sNot(sEq(it.m.S, "0")), sSelect(d, k), sNot(sSelect(vis, k)))))
 		vc.assume(sImp(sNot(okc), sOr(sEq(it.m.S, "0"), fmt.Sprintf("(forall ((kk %s)) (! (=> (select %s kk) (select %s kk)) :pattern ((select %s kk))))", ks, d, vis, d))))
@@ -768,7 +795,7 @@ func (vc *FnVC) doNext(x *ssa.Next) {
 		vc.set(it.visitedKey, sIte(okc, sStore(vis, k, "true"), vis))
 		kv := Val{k, tup.At(1).Type(), ks}
 		vv := Val{v, tup.At(2).Type(), vs}
-		vc.assume(sImp(okc, sAnd(vc.typeFacts(Val{k, it.keyT, ks}), vc.typeFacts(Val{v, it.valT, vs}))))
+		vc.assume(sImp(okc, sAnd(vc.typeFacts(Val{k, it.keyT, ks}), vc.typeFacts(Val{v, it.valT, vs}), vc.regimeFacts(v, it.valT, 0))))
 		vc.tuples[x] = []Val{{okc, types.Typ[types.Bool], SBool}, kv, vv}
 		return
 	}
@@ -783,4 +810,20 @@ func (vc *FnVC) doNext(x *ssa.Next) {
 	vc.assume(sImp(okc, sAnd(sx("<=", "1", sz), sx("<=", sz, "4"), sx("<=", sx("+", pos, sz), sx("gs.len", s.S)), sx("<=", "0", r), sx("<=", r, "1114111"))))
 	vc.set(it.posKey, sIte(okc, sx("+", pos, sz), pos))
 	vc.tuples[x] = []Val{{okc, types.Typ[types.Bool], SBool}, {pos, types.Typ[types.Int], SInt}, {r, types.Typ[types.Rune], SInt}}
+}
+
+// allocInitialises: the block that allocates the struct also stores field i (composite literal).
+func allocInitialises(a *ssa.Alloc, field int) bool {
+	for _, ref := range *a.Referrers() {
+		fa, ok := ref.(*ssa.FieldAddr)
+		if !ok || fa.Field != field || fa.Block() != a.Block() {
+			continue
+		}
+		for _, r2 := range *fa.Referrers() {
+			if st, ok := r2.(*ssa.Store); ok && st.Addr == fa && st.Block() == a.Block() {
+				return true
+			}
+		}
+	}
+	return false
 }
